@@ -30,6 +30,18 @@ CHECKS['C13'] = dict(
    technique="TLA+ design model + spec->code replay of generated behaviours + code->spec trace validation of callback events",
    ref="5/C13")
 
+CHECKS['C20'] = dict(
+   text="ConfigLayers.tla: TLC enumerates, for two keys, every assignment of which of the six layers mention them (known and unknown "
+        "syntax), proves that six update steps give the value of the most specific mentioning layer, that a non-mentioning layer "
+        "leaves a key untouched at every intermediate step and that layers are never written. Every assignment is realised with "
+        "concrete option/snippet/variable keys and (type, syntax) pairs of the tree under test (built-in layers by choice of key, "
+        "caller layers by marker values) and compared with Config(user, global), with what expand() shows, and with deep copies of "
+        "the built-in tables and caller dictionaries.",
+   note="Exhaustive over layer subsets; subsets no built-in key can realise are reported as unrealisable in the evidence. Built-in "
+        "layer membership of a concrete key is read from the tree's own tables.",
+   technique="TLA+ spec (machine = contract by TLC, exhaustive) + spec->code replay of every layer assignment",
+   ref="5/C20")
+
 NOT_YET = {}
 
 def main():
